@@ -593,6 +593,10 @@ pub fn main_c08(ctx: &Ctx) -> ! {
     }
     // tree level: tb exact_errors x tok exact_errors x drop_doctype x discard_bom
     let mut trc = tree_corpus(ctx.tier);
+    // every quirks / limited-quirks / no-quirks doctype class (drop_doctype must not change the mode decision)
+    for d in crate::sweeps::doctype_inputs().into_iter().step_by(ctx.tier.pick(3, 1)) {
+        trc.push((TreeCfg::default(), d));
+    }
     for dt in ["<!DOCTYPE html>", "<!DOCTYPE x PUBLIC \"-//W3C//DTD HTML 4.01 Frameset//\">x", "<!DOCTYPE html SYSTEM \"about:legacy-compat\"><p>", "\u{feff}<!DOCTYPE html>a", "<!-- c --><!DOCTYPE html PUBLIC \"-//W3O//DTD W3 HTML 3.0//\">"] {
         trc.push((TreeCfg::default(), dt.to_string()));
     }
